@@ -1,9 +1,9 @@
 #!/bin/sh
-# selftest/sweep.sh <tier> <seeds...> : every check on the unchanged tree, per seed; prints one line per run
+# [CHECKS='05 06'] selftest/sweep.sh <tier> <seeds...> : every check on the unchanged tree, per seed; prints one line per run
 tier="$1"; shift
 cd "$(dirname "$0")/.." || exit 2
 for seed in "$@"; do
-  for i in 01 02 03 04 05 06 07 08 09 10 11 12 13 14 15 16 17 18 19 20; do
+  for i in ${CHECKS:-01 02 03 04 05 06 07 08 09 10 11 12 13 14 15 16 17 18 19 20}; do
     start=$(date +%s)
     out=$(VERIF_SEED=$seed ./check C$i --tier "$tier" --no-evidence 2>&1); rc=$?
     end=$(date +%s)
